@@ -112,6 +112,11 @@ struct HList : public HashTable<Key_T, HLItem_T<Key_T>> {
     }
 
     void operator+=(const HList &src) {
+        if (this == &src) {
+            // Every key is already here; growing would also move the items being read.
+            return;
+        }
+
         const SizeT  n_size   = (Size() + src.Size());
         const HItem *src_item = src.First();
         const HItem *src_end  = src_item + src.Size();
